@@ -21,6 +21,15 @@ bool close(double a, double b, double rel) { return a == b || std::fabs(a - b) <
 enum { A_BATCH = 1, A_MERGE = 2, A_SERDE = 3, A_QUERY = 4, A_REFUSED = 5, A_RESET = 6, A_COPY = 7, A_NAN = 8, A_COMPRESS = 9, A_UNION = 10 };
 const char* a_step_name(int k) { static const char* n[] = { "?", "batch", "merge", "serde", "query", "refused_op", "reset", "copy", "nan", "compress", "union" }; return (k >= 1 && k <= 10) ? n[k] : "step"; }
 
+// restore through the stream reader (chunked refills); the reader must take exactly the image
+template<typename V, typename De> auto restore_stream(Ctx& ctx, const V& b, i64 salt, const char* prop, De de) -> decltype(de(std::declval<std::istream&>())) {
+  static const size_t chunks[] = { 1, 3, 7, 64, 4096 };
+  SimFileBuf fb(reinterpret_cast<const uint8_t*>(b.data()), b.size(), 0, chunks[static_cast<size_t>(salt >> 2) % 5], static_cast<size_t>(-1), static_cast<size_t>(-1)); std::istream is(&fb);
+  auto r = de(is);
+  if (fb.consumed() != b.size()) ctx.fail(std::string(prop) + "|stream-reader-consumed-wrong-length", std::to_string(fb.consumed()) + " of " + std::to_string(b.size()));
+  ctx.fault("chunk"); return r;
+}
+
 Plan gen_generic(u64 run_seed, int tier, std::vector<i64> cfg, int slots, const std::vector<std::pair<int, int>>& mix, i64 max_count) {
   Plan p; p.run_seed = run_seed; p.cfg = cfg; Rng rp(run_seed, "plan");
   int total = 0; for (auto& m : mix) total += m.second;
@@ -80,6 +89,11 @@ template<typename T, typename W> struct FiExec {
       std::set<std::string> in_nfn; W prev = 0; bool first = true;
       for (auto& r : nfn) { in_nfn.insert(Item<T>::str(r.get_item())); if (!first) ctx.require(r.get_estimate() <= prev, fp("rows-not-sorted-descending").c_str(), ""); prev = r.get_estimate(); first = false; }
       for (auto& kv : n.w) if (kv.second > t) ctx.require(in_nfn.count(Item<T>::str(Item<T>::make(kv.first))) != 0, fp("no-false-negatives-misses-item").c_str(), "item " + std::to_string(kv.first) + " weight " + std::to_string(kv.second) + " threshold " + std::to_string(t));
+      // thresholds below the maximum error: an item heavier than max(threshold, maximum error) is necessarily tracked with an upper bound above the
+      // threshold, so it must still be listed (a threshold of 0 or 1 after a purge is the ordinary "give me everything you have" call)
+      if (t0 < t) { auto low = s.get_frequent_items(ds::NO_FALSE_NEGATIVES, static_cast<W>(t0)); std::set<std::string> in_low; for (auto& r : low) in_low.insert(Item<T>::str(r.get_item()));
+        for (auto& kv : n.w) if (kv.second > t) ctx.require(in_low.count(Item<T>::str(Item<T>::make(kv.first))) != 0, fp("no-false-negatives-misses-item-at-low-threshold").c_str(), "item " + std::to_string(kv.first) + " weight " + std::to_string(kv.second) + " threshold " + std::to_string(t0) + " maximum error " + std::to_string(t));
+        ctx.probe("threshold_below_maximum_error"); }
       first = true;
       for (auto& r : nfp) {
         if (!first) ctx.require(r.get_estimate() <= prev, fp("rows-not-sorted-descending").c_str(), ""); prev = r.get_estimate(); first = false;
@@ -105,7 +119,9 @@ template<typename T, typename W> struct FiExec {
           if (s.c & 1) { n.sk->merge(std::move(*src.sk)); for (auto& kv : src.w) n.w[kv.first] += kv.second; src.sk.reset(new S(make())); src.w.clear(); }
           else { n.sk->merge(*src.sk); for (auto& kv : src.w) n.w[kv.first] += kv.second; }
           ctx.nontrivial = true; ctx.probe("merge"); break; }
-        case A_SERDE: { auto b = n.sk->serialize(0, typename Item<T>::serde()); n.sk.reset(new S(S::deserialize(b.data(), b.size(), typename Item<T>::serde(), std::equal_to<T>(), talloc<T>(1)))); ctx.fault("checkpoint_restore"); break; }
+        case A_SERDE: { auto b = n.sk->serialize(0, typename Item<T>::serde());
+          if (s.c & 2) n.sk.reset(new S(restore_stream(ctx, b, s.c, "C12", [&](std::istream& is) { return S::deserialize(is, typename Item<T>::serde(), std::equal_to<T>(), talloc<T>(1)); })));
+          else n.sk.reset(new S(S::deserialize(b.data(), b.size(), typename Item<T>::serde(), std::equal_to<T>(), talloc<T>(1)))); ctx.fault("checkpoint_restore"); break; }
         case A_QUERY: query(n, s.b); break;
         case A_REFUSED: refused(*n.sk); break;
         case A_COPY: { Node& d = nodes[static_cast<size_t>(s.b) % nodes.size()]; if (&d != &n) { d.sk.reset(new S(*n.sk)); d.w = n.w; } break; }
@@ -186,7 +202,24 @@ template<typename W> struct CmExec {
           if (src.log.size() >= 20000 || n.log.size() + src.log.size() >= 20000) break;
           n.sk->merge(*src.sk); for (auto& kv : src.log) { apply(*n.shadow, kv.first, kv.second); n.truth[kv.first] += kv.second; n.total += kv.second; n.log.push_back(kv); }
           cells = true; ctx.nontrivial = true; ctx.probe("merge"); break; }
-        case A_SERDE: { auto b = n.sk->serialize(); n.sk.reset(new S(S::deserialize(b.data(), b.size(), seed, talloc<W>(1)))); cells = true; ctx.fault("checkpoint_restore"); break; }
+        case A_SERDE: { auto b = n.sk->serialize();
+          if (s.c & 2) n.sk.reset(new S(restore_stream(ctx, b, s.c, "C14", [&](std::istream& is) { return S::deserialize(is, seed, talloc<W>(1)); })));
+          else n.sk.reset(new S(S::deserialize(b.data(), b.size(), seed, talloc<W>(1))));
+          ctx.require(n.sk->get_seed() == seed, fp("restored-seed-differs").c_str(), std::to_string(n.sk->get_seed()) + " vs " + std::to_string(seed)); cells = true; ctx.fault("checkpoint_restore"); break; }
+        case A_QUERY: {
+          // the confidence clause on a fresh sketch and a skewed stream: h heavy items (each heavier than relative_error * total weight) and 2000 unit items.
+          // A light item is over-estimated by more than relative_error * total only if it meets a heavy one in EVERY row: about (h / buckets)^rows of
+          // them, against the e^-rows the configuration allows - rows 3..5, h / buckets = 1/6, so the margin is 8x..32x and does not depend on luck
+          const uint8_t rows = static_cast<uint8_t>(3 + s.b % 3); const uint32_t buckets = static_cast<uint32_t>(40 + (s.c >> 6) % 30); const i64 heavy = buckets / 6, light = 2000; const u64 hw = 400 * (FRACTIONAL ? 4 : 1), lw = FRACTIONAL ? 4 : 1;
+          S sk(rows, buckets, seed + static_cast<u64>(s.b), talloc<W>(1));
+          for (i64 i = 0; i < heavy; i++) apply(sk, key(1000000 + i * 7919 + s.b, false), hw);
+          for (i64 i = 0; i < light; i++) apply(sk, key(i * 31 + s.b, (s.c & 1) != 0), lw);
+          const double total = dq(static_cast<u64>(heavy) * hw + static_cast<u64>(light) * lw), budget = sk.get_relative_error() * total; i64 over = 0;
+          ctx.require(dq(hw) > budget, fp("skew-step-precondition").c_str(), "heavy weight " + std::to_string(dq(hw)) + " budget " + std::to_string(budget));
+          for (i64 i = 0; i < light; i++) if (static_cast<double>(est(sk, key(i * 31 + s.b, (s.c & 1) != 0))) - dq(lw) > budget) over++;
+          const double allowed = std::exp(-static_cast<double>(rows)) * static_cast<double>(light);
+          if (static_cast<double>(over) > allowed) ctx.fail(fp("over-estimate-above-relative-error-more-often-than-the-confidence-allows"), std::to_string(over) + " of " + std::to_string(light) + " light items are over-estimated by more than relative_error * total = " + std::to_string(budget) + "; " + std::to_string(rows) + " rows allow " + std::to_string(allowed) + " (" + std::to_string(buckets) + " buckets, " + std::to_string(heavy) + " heavy items)");
+          ctx.check(); ctx.probe("confidence_clause_checked"); ctx.nontrivial = true; break; }
         case A_REFUSED: {
           S other1(static_cast<uint8_t>(nh == 255 ? 3 : nh + 1), nb, seed, talloc<W>(1)), other2(nh, nb + 1, seed, talloc<W>(1)), other3(nh, nb, seed + 1, talloc<W>(1));
           int t = 0; try { n.sk->merge(other1); } catch (const std::invalid_argument&) { t++; } try { n.sk->merge(other2); } catch (const std::invalid_argument&) { t++; } try { n.sk->merge(other3); } catch (const std::invalid_argument&) { t++; }
@@ -208,7 +241,7 @@ struct C14World: World {
   const char* step_name(int k) const override { return a_step_name(k); }
   std::string family_of(const Plan& p) const override { static const char* n[] = { "countmin<u64>", "countmin<i64>", "countmin<double>" }; return p.cfg.empty() ? "?" : n[p.cfg[0] % 3]; }
   Plan generate(u64 run_seed, int tier) override { Rng rc(run_seed, "cfg");
-    return gen_generic(run_seed, tier, { static_cast<i64>(rc.below(3)), static_cast<i64>(rc.below(6)), static_cast<i64>(rc.below(6)), static_cast<i64>(rc.below(3)) }, 3, { {A_BATCH, 45}, {A_MERGE, 28}, {A_SERDE, 10}, {A_REFUSED, 7}, {A_COPY, 10} }, 1500); }
+    return gen_generic(run_seed, tier, { static_cast<i64>(rc.below(3)), static_cast<i64>(rc.below(6)), static_cast<i64>(rc.below(6)), static_cast<i64>(rc.below(3)) }, 3, { {A_BATCH, 45}, {A_MERGE, 28}, {A_SERDE, 10}, {A_REFUSED, 7}, {A_COPY, 10}, {A_QUERY, 5} }, 1500); }
   void execute(const Plan& p, Ctx& ctx) override {
     alloc_state().reset_counters(); alloc_state().budget = static_cast<size_t>(1) << 31;
     switch (p.cfg[0] % 3) { case 0: CmExec<uint64_t>(ctx, p, "countmin<u64>").run(); break; case 1: CmExec<int64_t>(ctx, p, "countmin<i64>").run(); break; default: CmExec<double>(ctx, p, "countmin<double>").run(); break; }
@@ -282,9 +315,22 @@ template<typename T> struct TdExec {
         case A_BATCH: { const i64 count = s.c / 64, pat = s.c % 64; for (i64 j = 0; j < count; j++) { T v = value_of(s.b, j, count, pat); n.sk->update(v); n.vals.push_back(v); } break; }
         case A_NAN: n.sk->update(std::numeric_limits<T>::quiet_NaN()); ctx.probe("nan_offered"); break;
         case A_MERGE: { Node& src = nodes[static_cast<size_t>(s.b) % nodes.size()]; if (&src == &n) break; n.sk->merge(*src.sk); n.vals.insert(n.vals.end(), src.vals.begin(), src.vals.end()); check_basic(src, "being merge source"); ctx.nontrivial = true; ctx.probe("merge"); break; }
-        case A_SERDE: { auto b = n.sk->serialize(0, (s.b & 1) != 0); n.sk.reset(new S(S::deserialize(b.data(), b.size(), talloc<T>(1)))); ctx.fault("checkpoint_restore"); break; }
+        case A_SERDE: { auto b = n.sk->serialize(0, (s.b & 1) != 0);
+          if (s.c & 2) n.sk.reset(new S(restore_stream(ctx, b, s.c, "C17", [&](std::istream& is) { return S::deserialize(is, talloc<T>(1)); })));
+          else n.sk.reset(new S(S::deserialize(b.data(), b.size(), talloc<T>(1)))); ctx.fault("checkpoint_restore"); break; }
         case A_QUERY: check_read(n, s.b); break;
-        case A_COMPRESS: n.sk->compress(); break;
+        case A_COMPRESS: n.sk->compress();
+          if ((s.c & 12) == 12) {   // a long run of one-value digests merged into one large digest (the aggregator of many tiny producers), on digests of its own: k from a
+            // wider range than the run's, since the scale function only degenerates for small batches at large k
+            static const int ks2[] = { 50, 100, 200, 250, 400 }; const uint16_t k2 = static_cast<uint16_t>(ks2[static_cast<size_t>(s.b) % 5]);
+            S big(k2, talloc<T>(1)); const i64 bulk = 20 * static_cast<i64>(k2), tiny = 8 * static_cast<i64>(k2); u64 total = 0; T mn = 0, mx = 0;
+            for (i64 j = 0; j < bulk + tiny; j++) { const T v = value_of(s.b, j, bulk + tiny, 2); if (total == 0 || v < mn) mn = v; if (total == 0 || v > mx) mx = v; total++;
+              if (j < bulk) big.update(v); else { S one(k2, talloc<T>(1)); one.update(v); if (j & 1) big.merge(one); else big.merge(std::move(one)); } }
+            ctx.require(big.get_total_weight() == total && big.get_min_value() == mn && big.get_max_value() == mx, fp("tiny-merges|weight-or-extremes").c_str(), "");
+            auto img = big.serialize(); if (img.size() >= 16 && img[0] == 2) { const uint32_t nc = load32le(img.data() + 8);
+              if (nc > 2u * (2u * k2 + 30u)) ctx.fail(fp("centroid-count-unbounded"), std::to_string(nc) + " centroids after " + std::to_string(bulk) + " values and " + std::to_string(tiny) + " one-value merges, k=" + std::to_string(k2)); }
+            ctx.check(); ctx.probe("tiny_merges"); ctx.nontrivial = true; }
+          break;
         case A_COPY: { Node& d = nodes[static_cast<size_t>(s.b) % nodes.size()]; if (&d != &n) { d.sk.reset(new S(*n.sk)); d.vals = n.vals; } break; }
         default: break;
       }
@@ -380,7 +426,7 @@ struct C16World: World {
           check(ctx, res, "union get_result", true, max_k);
           if (s.c & 8) { auto bytes = un.serialize(); UN back = UN::deserialize(bytes.data(), bytes.size(), ds::serde<int64_t>(), talloc<int64_t>(1)); Node r2; r2.in = res.in; r2.total = res.total; r2.n = res.n; r2.may_dup = res.may_dup; r2.sk.reset(new S(back.get_result())); check(ctx, r2, "restored union get_result", true, max_k); ctx.fault("checkpoint_restore"); }
           ctx.nontrivial = true; ctx.probe("union"); break; }
-        case A_SERDE: { auto b = n.sk->serialize(); n.sk.reset(new S(S::deserialize(b.data(), b.size(), ds::serde<int64_t>(), talloc<int64_t>(1)))); ctx.fault("checkpoint_restore"); break; }
+        case A_SERDE: { auto b = n.sk->serialize(); if (s.c & 2) n.sk.reset(new S(restore_stream(ctx, b, s.c, "C16", [&](std::istream& is) { return S::deserialize(is, ds::serde<int64_t>(), talloc<int64_t>(1)); }))); else n.sk.reset(new S(S::deserialize(b.data(), b.size(), ds::serde<int64_t>(), talloc<int64_t>(1)))); ctx.fault("checkpoint_restore"); break; }
         case A_REFUSED: { int t = 0; const double bad[] = { -1.0, std::numeric_limits<double>::quiet_NaN(), std::numeric_limits<double>::infinity() };
           for (double wb : bad) { try { n.sk->update(static_cast<int64_t>(-5), wb); } catch (const std::invalid_argument&) { t++; } }
           ctx.require(t == 3, "C16|invalid-weight-not-refused", std::to_string(t)); ctx.fault("refused_op"); break; }
@@ -439,10 +485,12 @@ struct C18World: World {
         case A_BATCH: { const i64 count = s.c / 64, pat = s.c % 64; for (i64 j = 0; j < count; j++) { const i64 id = next_id++; const double wt = vo_weight(id + s.b, pat); n.sk->update(id, wt); add(n, id, wt); } break; }
         case A_MERGE: { Node& src = nodes[static_cast<size_t>(s.b) % nodes.size()]; if (&src == &n) break;
           if (src.cum > n.cum) ctx.probe("merge_larger_into_smaller"); else ctx.probe("merge_smaller_into_larger");
+          const double cum_before = n.sk->get_cumulative_weight(), cum_src = src.sk->get_cumulative_weight();
           if (s.c & 1) { S tmp(*src.sk); n.sk->merge(std::move(tmp)); } else n.sk->merge(*src.sk);
+          ctx.require(n.sk->get_cumulative_weight() == cum_before + cum_src, "C18|merged-cumulative-weight-not-the-sum", hexd(n.sk->get_cumulative_weight()) + " vs " + hexd(cum_before) + " + " + hexd(cum_src));
           if (src.n > 0) { n.merged = true; for (i64 id : src.ids) if (!n.ids.insert(id).second) n.may_dup = true; if (src.may_dup) n.may_dup = true; n.cum += src.cum; n.maxw = std::max(n.maxw, src.maxw); if (n.n == 0) { n.w0 = src.w0; n.equal_weights = src.equal_weights; } else if (!src.equal_weights || src.w0 != n.w0) n.equal_weights = false; n.n += src.n; n.k = std::min(n.k, src.k); }
           ctx.nontrivial = true; break; }
-        case A_SERDE: { auto b = n.sk->serialize(); n.sk.reset(new S(S::deserialize(b.data(), b.size(), ds::serde<int64_t>(), talloc<int64_t>(1)))); ctx.fault("checkpoint_restore"); break; }
+        case A_SERDE: { auto b = n.sk->serialize(); if (s.c & 2) n.sk.reset(new S(restore_stream(ctx, b, s.c, "C18", [&](std::istream& is) { return S::deserialize(is, ds::serde<int64_t>(), talloc<int64_t>(1)); }))); else n.sk.reset(new S(S::deserialize(b.data(), b.size(), ds::serde<int64_t>(), talloc<int64_t>(1)))); ctx.fault("checkpoint_restore"); break; }
         case A_REFUSED: { int t = 0; const double bad[] = { -1.0, std::numeric_limits<double>::quiet_NaN(), std::numeric_limits<double>::infinity() };
           for (double wb : bad) { try { n.sk->update(static_cast<int64_t>(-5), wb); } catch (const std::invalid_argument&) { t++; } }
           ctx.require(t == 3, "C18|invalid-weight-not-refused", std::to_string(t)); ctx.fault("refused_op"); break; }
@@ -483,6 +531,58 @@ struct C18StatWorld: World {
       if (std::fabs(ph - pi) > 6 * sigma + 1e-9) ctx.fail("C18|inclusion-probability-not-proportional-to-weight", "item " + std::to_string(i) + " weight " + hexd(w[static_cast<size_t>(i)]) + ": included in " + std::to_string(ph) + " of draws, expected " + std::to_string(pi) + " (k=" + std::to_string(k) + ", " + std::to_string(n) + " items, " + std::to_string(trials) + " draw sequences, allowed deviation " + std::to_string(6 * sigma) + " at 1e-13)");
       ctx.check(); }
     ctx.nontrivial = true; ctx.probe("monte_carlo_streams"); ctx.probe("draw_sequences", static_cast<u64>(trials)); ctx.t(static_cast<u64>(hits[0])); ctx.t(static_cast<u64>(hits[static_cast<size_t>(n - 1)]));
+  }
+};
+
+// C16 on an item type that owns memory: unions of string sketches with different k and fill, into a union whose max_k is larger than the number of
+// samples (so that get_result() has to migrate marked items by decreasing k). Every sample of the result must be one of the input strings, none twice;
+// n and the total weight must be the combined ones; and every block the strings took from the heap must be returned.
+struct C16StrWorld: World {
+  typedef ds::var_opt_sketch<std::string, talloc<std::string>> S; typedef ds::var_opt_union<std::string, talloc<std::string>> UN;
+  const char* name() const override { return "c16u"; }
+  const char* step_name(int) const override { return "string_union"; }
+  std::string family_of(const Plan&) const override { return "varopt<string>|union"; }
+  Plan generate(u64 run_seed, int) override { Plan p; p.run_seed = run_seed; Rng r(run_seed, "cfg"); static const int ks[] = { 2, 3, 5, 8, 8, 13 }; static const int mk[] = { 8, 16, 32, 64 };
+    p.cfg = { r.pick(mk), static_cast<i64>(r.below(3)) + 2 };
+    for (i64 i = 0; i < p.cfg[1]; i++) { Step s; s.kind = 1; s.a = r.pick(ks); static const i64 cnt[] = { 0, 1, 3, 5, 12, 40, 90, 200 }; s.b = r.pick(cnt); s.c = static_cast<i64>(r.below(4)) * 8 + static_cast<i64>(r.below(8)); p.steps.push_back(s); }   // s.c: heavy items (high bits), weight pattern (low bits)
+    return p; }
+  void execute(const Plan& p, Ctx& ctx) override {
+    alloc_state().reset_counters(); alloc_state().budget = static_cast<size_t>(1) << 30;
+    SimRandom rnd(p.run_seed); RandomScope rs(rnd);
+    const long long tracked_before = g_tracked_global_live; const AllocMark mark;
+    // the harness's own bookkeeping is built before the tracked region, so that every block taken inside it belongs to the library's objects
+    struct In { std::string name; double w; }; std::vector<std::vector<In>> feed(p.steps.size()); std::map<std::string, int> input; std::string err_fp, err_detail; err_fp.reserve(128); err_detail.reserve(256);
+    for (size_t idx = 0; idx < p.steps.size(); idx++) { const Step& s = p.steps[idx]; char buf[64];
+      for (i64 i = 0; i < s.b; i++) { std::snprintf(buf, sizeof(buf), "stream-%d-light-item-%04lld", static_cast<int>(idx), static_cast<long long>(i)); const double w0 = vo_weight(i + static_cast<i64>(idx) * 1000, s.c & 7); feed[idx].push_back(In{ buf, w0 > 64 ? 64 : w0 }); input[buf] = static_cast<int>(idx); }
+      for (i64 i = 0; i < (s.c >> 3); i++) { std::snprintf(buf, sizeof(buf), "stream-%d-HEAVY-item-%04lld", static_cast<int>(idx), static_cast<long long>(i)); feed[idx].push_back(In{ buf, 500.0 + 100.0 * static_cast<double>(i) + static_cast<double>(idx) }); input[buf] = static_cast<int>(idx); } }
+    double total = 0; u64 n = 0; bool threw = false;
+    {
+      TrackGlobalNew tg;
+      UN u(static_cast<uint32_t>(p.cfg[0]), talloc<std::string>(1));
+      int idx = 0;
+      for (const Step& s : p.steps) {
+        ctx.begin_step(idx, s.kind);
+        S sk(static_cast<uint32_t>(s.a), ds::resize_factor::X8, talloc<std::string>(1));
+        for (const In& in : feed[static_cast<size_t>(idx)]) { sk.update(in.name, in.w); total += in.w; n++; }
+        std::unique_ptr<S> rp; try { if (idx & 1) u.update(std::move(sk)); else u.update(sk); rp.reset(new S(u.get_result())); } catch (const std::logic_error&) { ctx.probe("union_get_result_threw"); threw = true; break; }   // the recorded C16 finding (reported by world c16); what its unwinding leaves behind is not judged here
+        S& r = *rp;
+        if (r.get_n() != n) { err_fp = "C16|varopt<string>|union|n-differs"; break; }
+        double sum = 0; std::set<std::string> seen;
+        for (auto it = r.begin(); it != r.end(); ++it) { const std::string& name = (*it).first; sum += (*it).second;
+          auto f = input.find(name);
+          if (f == input.end() || f->second > idx) { err_fp = "C16|varopt<string>|union|sample-not-from-input"; err_detail = name; break; }
+          if (!seen.insert(name).second) { err_fp = "C16|varopt<string>|union|sample-duplicated"; err_detail = name; break; } }
+        if (err_fp.empty() && n > 0 && !close(sum, total, 1e-9)) err_fp = "C16|varopt<string>|union|adjusted-weights-do-not-sum-to-total";
+        if (!err_fp.empty()) break;
+        ctx.check(); ctx.t(static_cast<u64>(r.get_num_samples()));
+        idx++;
+      }
+    }
+    if (!err_fp.empty()) ctx.fail(err_fp, "sample \"" + err_detail + "\"");
+    if (!threw && !mark.balanced()) ctx.fail("C16|varopt<string>|union|memory-left-allocated", mark.diff());
+    if (!threw && g_tracked_global_live != tracked_before) ctx.fail("C16|varopt<string>|union|string-buffers-left-allocated", std::to_string(g_tracked_global_live - tracked_before) + " block(s) from ::operator new (item strings) never released");
+    if (!alloc_state().errors.empty()) ctx.fail("C16|allocator-misuse", alloc_state().errors[0]);
+    ctx.nontrivial = true; ctx.probe("string_unions");
   }
 };
 
@@ -542,7 +642,7 @@ template<typename T> struct gauss { template<typename V1, typename V2> T operato
 template<typename T> struct laplace { template<typename V1, typename V2> T operator()(const V1& a, const V2& b) const { double acc = 0; for (size_t i = 0; i < a.size(); i++) acc += std::fabs(static_cast<double>(a[i]) - static_cast<double>(b[i])); return static_cast<T>(1.0 / (1.0 + acc)); } };
 template<typename T, typename K> struct DnExec {
   typedef ds::density_sketch<T, K, talloc<T>> S; typedef typename S::Vector V;
-  struct Node { std::unique_ptr<S> sk; std::vector<std::vector<T>> pts; };
+  struct Node { std::unique_ptr<S> sk; std::vector<std::vector<T>> pts; bool merged = false; };   // merged: a merge is part of this sketch's history (a merge may compact earlier)
   Ctx& ctx; const Plan& p; std::string fam; uint16_t k; uint32_t dim;
   DnExec(Ctx& c, const Plan& pl, const char* f): ctx(c), p(pl), fam(f) { k = static_cast<uint16_t>(p.cfg[2]); dim = static_cast<uint32_t>(p.cfg[3]); }
   std::string fp(const char* cls) const { return "C20|" + fam + "|" + cls; }
@@ -561,6 +661,8 @@ template<typename T, typename K> struct DnExec {
     ctx.require(cnt == s.get_num_retained(), fp("iteration-count-vs-num-retained").c_str(), std::to_string(cnt) + " vs " + std::to_string(s.get_num_retained()) + w);
     int lobs = 0; while ((1ULL << lobs) < maxw) lobs++; lobs += 1;
     ctx.require(s.get_num_retained() <= static_cast<u64>(k) * static_cast<u64>(lobs + 1), fp("retained-above-k-times-levels").c_str(), std::to_string(s.get_num_retained()) + " k=" + std::to_string(k) + " levels>=" + std::to_string(lobs) + w);
+    // a sketch that was only ever updated compacts for the first time when the (k+1)-th point arrives: up to k points it is exact, whatever else was attempted
+    if (!n.merged && n.pts.size() <= k) ctx.require(cnt == n.pts.size() && !any_heavy && !s.is_estimation_mode(), fp("compacted-before-capacity-was-exceeded").c_str(), std::to_string(cnt) + " retained of " + std::to_string(n.pts.size()) + " points, k=" + std::to_string(k) + w);
     const bool compacted = n.pts.size() > cnt || any_heavy;
     if (compacted) ctx.require(s.is_estimation_mode(), fp("estimation-mode-false-after-compaction").c_str(), w);
     if (n.pts.empty()) { bool t = false; try { s.get_estimate(point(1)); } catch (const std::exception&) { t = true; } ctx.require(t, fp("empty-sketch-estimate-not-rejected").c_str(), w); return; }
@@ -583,12 +685,17 @@ template<typename T, typename K> struct DnExec {
         case A_BATCH: { const i64 count = std::min<i64>(s.c / 64, 400); for (i64 j = 0; j < count; j++) { std::vector<T> x = point(s.b * 100000 + next++); V v(x.begin(), x.end(), talloc<T>(1)); if (j & 1) n.sk->update(std::move(v)); else n.sk->update(v); n.pts.push_back(x); } break; }
         case A_MERGE: { Node& src = nodes[static_cast<size_t>(s.b) % nodes.size()]; if (&src == &n) break;
           if (s.c & 1) { S tmp(*src.sk); n.sk->merge(std::move(tmp)); } else n.sk->merge(*src.sk);
-          n.pts.insert(n.pts.end(), src.pts.begin(), src.pts.end()); ctx.nontrivial = true; ctx.probe("merge"); break; }
-        case A_SERDE: { auto b = n.sk->serialize(); n.sk.reset(new S(S::deserialize(b.data(), b.size(), K(), talloc<T>(1)))); ctx.fault("checkpoint_restore"); break; }
-        case A_REFUSED: { std::vector<T> bad(dim + 1, static_cast<T>(1)); V v(bad.begin(), bad.end(), talloc<T>(1)); bool t = false; try { n.sk->update(v); } catch (const std::invalid_argument&) { t = true; }
+          n.pts.insert(n.pts.end(), src.pts.begin(), src.pts.end()); n.merged = true; ctx.nontrivial = true; ctx.probe("merge"); break; }
+        case A_SERDE: { auto b = n.sk->serialize();
+          if (s.c & 2) n.sk.reset(new S(restore_stream(ctx, b, s.c, "C20", [&](std::istream& is) { return S::deserialize(is, K(), talloc<T>(1)); })));
+          else n.sk.reset(new S(S::deserialize(b.data(), b.size(), K(), talloc<T>(1)))); ctx.fault("checkpoint_restore"); break; }
+        case A_REFUSED: {
+          // half of the refusals are placed on the capacity boundary: the sketch is topped up to exactly k points first
+          if ((s.c & 4) && !n.merged && n.pts.size() < k) { while (n.pts.size() < k) { std::vector<T> x = point(s.b * 100000 + next++); V v0(x.begin(), x.end(), talloc<T>(1)); n.sk->update(v0); n.pts.push_back(x); } ctx.probe("refusal_on_capacity_boundary"); }
+          std::vector<T> bad(dim + 1, static_cast<T>(1)); V v(bad.begin(), bad.end(), talloc<T>(1)); bool t = false; try { n.sk->update(v); } catch (const std::invalid_argument&) { t = true; }
           S other(k, dim + 1, K(), talloc<T>(1)); other.update(v); bool t2 = false; try { n.sk->merge(other); } catch (const std::invalid_argument&) { t2 = true; }
           ctx.require(t && t2, fp("wrong-dimension-not-refused").c_str(), std::to_string(t) + std::to_string(t2)); ctx.fault("refused_op"); break; }
-        case A_COPY: { Node& d = nodes[static_cast<size_t>(s.b) % nodes.size()]; if (&d != &n) { d.sk.reset(new S(*n.sk)); d.pts = n.pts; } break; }
+        case A_COPY: { Node& d = nodes[static_cast<size_t>(s.b) % nodes.size()]; if (&d != &n) { d.sk.reset(new S(*n.sk)); d.pts = n.pts; d.merged = n.merged; } break; }
         default: break;
       }
       for (Node& x : nodes) check(x, a_step_name(s.kind), s.b);
@@ -611,7 +718,7 @@ struct C20World: World {
   }
 };
 
-struct Init { Init() { static C12World a; static C14World b; static C17World c; static C16World d; static C18World e; static C20World f; static C18StatWorld g; static C16StatWorld h; for (World* w : std::vector<World*>{ &a, &b, &c, &d, &e, &f, &g, &h }) registry().push_back(w); } } init_;
+struct Init { Init() { static C12World a; static C14World b; static C17World c; static C16World d; static C18World e; static C20World f; static C18StatWorld g; static C16StatWorld h; static C16StrWorld i; for (World* w : std::vector<World*>{ &a, &b, &c, &d, &e, &f, &g, &h, &i }) registry().push_back(w); } } init_;
 } // namespace
 
 int main(int argc, char** argv) { sim::selftest_hashes(); return sim::sim_main(argc, argv); }
